@@ -773,12 +773,18 @@ func firstRoundRule(p *Prog, r *Report, rule string) {
 		// round is greater (absent-AND-greater would never record anybody)
 		pi2 := p.pathMasks(fn, []Pred{qAbsent, qGreater})
 		aloneA, aloneG := false, false
-		for m := range pi2.in[mu.Block().Index] {
-			switch pi2.predMask(m) & 3 {
-			case 1:
-				aloneA = true
-			case 2:
-				aloneG = true
+		for _, w2 := range p.writersOf(fFR) { // over ALL updates of the function (the two cases may be written as two branches)
+			mu2, isMU := w2.Instr.(*ssa.MapUpdate)
+			if w2.Fn != fn || !isMU || unwrap(mu2.Value) != round {
+				continue
+			}
+			for m := range pi2.in[mu2.Block().Index] {
+				switch pi2.predMask(m) & 3 {
+				case 1:
+					aloneA = true
+				case 2:
+					aloneG = true
+				}
 			}
 		}
 		r.Check(aloneA && aloneG, rule, "PeerSetCache.Set:firstRounds:each-case-alone", p.ipos(mu), fnName(fn), "a first sighting alone, and a greater recorded round alone, each lead to the update",
